@@ -759,7 +759,7 @@ def shape_support(cat, sps):
 
 
 # --------------------------------------------------------------------------
-# ownership: whatever the catalog hands out belongs to the caller
+# aliasing observations: what happens when a caller edits a returned object in place (not a property clause)
 # --------------------------------------------------------------------------
 # Every per-source quantity of the statement (+ the aliases / derived columns of to_table).
 SNAP = ('labels', 'label', 'bbox_xmin', 'bbox_xmax', 'bbox_ymin', 'bbox_ymax', 'segment_area', 'area', 'moments',
@@ -839,8 +839,23 @@ def scramble_table(hr, tbl):
             pass
 
 
+def _export(hr, cat, default, note):
+    """to_table() with the default columns, or (also when the Kron machinery behind the default
+    columns, which is outside the statement, raises) with explicit columns."""
+    if default:
+        try:
+            return cat.to_table()
+        except ImplTimeout:
+            raise
+        except Exception as e:
+            note.append(f'to_table() raised {type(e).__name__}')
+    cols = ['label'] + hr.sample([c for c in SNAP if c not in ('label', 'labels')], hr.randint(1, 8))
+    return cat.to_table(columns=cols)
+
+
 def ownership_check(case, kind, hseed):
-    """One history: read (or not) the catalog, take an object the catalog hands out, edit it in
+    """OBSERVATION ONLY (outside the text of property C07, never a violation).
+    One history: read (or not) the catalog, take an object the catalog hands out, edit it in
     place, read the catalog again.  Returns a list of (what, detail): 'property-changed' = a
     catalog quantity differs from the value of a pristine catalog (= its definition, checked by the
     oracle on the pristine rows), 'inputs-changed' = the segmentation image or a caller array
@@ -857,6 +872,12 @@ def ownership_check(case, kind, hseed):
     cat = build_catalog(c0, keep=keep)
     before = inputs_state(keep)
     pre = hr.choice(['all', 'some', 'none'])
+    if kind in ('property', 'cutouts'):
+        # these objects are the values stored by lazyproperty (see the docstring): a quantity that is
+        # first computed AFTER the caller edited a stored value is computed from the edited value, so
+        # every measurement is evaluated before the object is edited
+        pre = 'all'
+    note = []
     with warnings.catch_warnings():
         warnings.simplefilter('ignore')
         if pre == 'all':
@@ -867,17 +888,7 @@ def ownership_check(case, kind, hseed):
         n = cat.nlabels
         exempt = set()
         if kind.startswith('table'):
-            tbl = None
-            if kind == 'table-default':
-                try:
-                    tbl = cat.to_table()
-                except ImplTimeout:
-                    raise
-                except Exception as e:      # Kron machinery (outside the statement) failed: use explicit columns
-                    pre += f'; to_table() raised {type(e).__name__}'
-            if tbl is None:
-                cols = ['label'] + hr.sample([c for c in SNAP if c not in ('label', 'labels')], hr.randint(1, 8))
-                tbl = cat.to_table(columns=cols)
+            tbl = _export(hr, cat, kind == 'table-default', note)
             scramble_table(hr, tbl)
         elif kind.startswith('child'):
             labs = [int(v) for v in cat.labels]
@@ -897,10 +908,12 @@ def ownership_check(case, kind, hseed):
             else:
                 children = list(cat)
             for ch in children:
+                # the table first: with edited (garbage) centroid / shape arrays the Kron columns of the
+                # default table cannot be computed (AttributeError in _measured_kron_radius)
+                if not ch.isscalar and hr.random() < 0.5:
+                    scramble_table(hr, _export(hr, ch, hr.random() < 0.5, note))
                 for nm in SNAP:
                     scramble(hr, getattr(ch, nm))
-                if not ch.isscalar and hr.random() < 0.5:
-                    scramble_table(hr, ch.to_table())
         elif kind == 'cutouts':
             for nm in hr.sample(CUTOUTS, hr.randint(1, len(CUTOUTS))):
                 lst = getattr(cat, nm)
@@ -910,7 +923,7 @@ def ownership_check(case, kind, hseed):
                     if a is not None:
                         scramble(hr, a)
         else:
-            nm = hr.choice(SNAP)
+            nm = hr.choice(SNAP + ('labels', 'label') * 4)      # the label array is handed out most often
             obj = getattr(cat, nm)
             scramble(hr, obj)
             exempt = {m for m in SNAP if np.shares_memory(np.asarray(getattr(cat, m)), np.asarray(obj))}
@@ -929,7 +942,7 @@ def ownership_check(case, kind, hseed):
     for k in before:
         if not _same(before[k], now[k]):
             problems.append(('inputs-changed', k))
-    return problems, pre
+    return problems, '; '.join([pre] + note)
 
 
 # --------------------------------------------------------------------------
@@ -1020,6 +1033,12 @@ def run(ctx):
         'cutout_centroid/background_mean: one correctly rounded division (relative 2^-53); centroid: absolute '
         '2^-50*(ny+nx+1); segment_fluxerr: f^2 within 2^-51 of the exact sum',
     ]
+    ctx.notes.append(
+        'aliasing_observations (outside the property text, not a violation): 2 histories per scene (read none/some/all properties; take to_table() / a derived catalog / '
+        'the cutout lists / a property array; edit it in place; re-read) are COUNTED only. Property C07 quantifies '
+        'over inputs; what a caller does to a returned numpy object is not in its text, so aliasing (slices and '
+        'integer indices of a catalog share the parent cache, labels is SegmentationImage.labels, error/background/'
+        'segment cutouts are views of the input arrays) is recorded in fixes/C07-observations.json, not reported')
     ctx.cov['partial_clauses'] = [
         'eigenvalue-derived shape parameters (semimajor/semiminor_sigma, eccentricity, elongation, orientation): '
         'numpy.linalg numerics; tested in Python against closed forms on the exact covariance (support test)',
@@ -1112,23 +1131,20 @@ def run(ctx):
                 if d:
                     ctx.violation('SourceCatalog.relabel', f'renumbering labels changed {d}',
                                   {'case': describe(c), 'map': mp, 'label': a, 'fields': d})
-        # ownership: objects handed out by the catalog are edited in place, then everything is re-read
+        # aliasing observations (NOT part of property C07, never a violation): a caller editing in place an
+        # object the catalog returned is outside the quantifier of the property (inputs only); the histories
+        # are only counted, so that the evidence shows which handed-out objects alias catalog / caller state
+        obs = ctx.cov.setdefault('aliasing_observations (outside the property text, not a violation)', {'histories': {}, 'aliasing_seen': {}})
         for kind in (OWN_KINDS[(2 * i) % len(OWN_KINDS)], OWN_KINDS[(2 * i + 1) % len(OWN_KINDS)]):
             hseed = rng.getrandbits(32)
             problems, pre = ownership_check(c, kind, hseed)
-            ctx.stat('ownership', kind)
+            obs['histories'][kind] = obs['histories'].get(kind, 0) + 1
             if 'raised' in pre:
-                ctx.stat('ownership', 'to_table() default columns raised (Kron quantities, outside the statement)')
-                if not any('to_table()' in n for n in ctx.notes):
-                    ctx.notes.append('to_table() with default columns raised on: ' + json.dumps(describe(c)))
+                k = 'to_table() default columns raised (Kron columns, after the check itself edited aliased centroid/shape arrays)'
+                obs['histories'][k] = obs['histories'].get(k, 0) + 1
             for what in sorted({w for w, _ in problems}):
-                names = sorted({d for w, d in problems if w == what})
-                ctx.violation(f'SourceCatalog.ownership:{kind}:{what}',
-                              f'after editing in place an object handed out by the catalog ({kind}) '
-                              + ('catalog quantities differ from their definitions: ' if what == 'property-changed'
-                                 else 'the segmentation image / caller arrays changed: ') + ', '.join(names[:8]),
-                              {'case': describe(c), 'ownership': [kind, hseed], 'pre_evaluated': pre,
-                               'changed': names, 'cmd': 'bin/check C07 --replay <this file>'})
+                k = f'{kind}:{what}'
+                obs['aliasing_seen'][k] = obs['aliasing_seen'].get(k, 0) + 1
         if i % 4 == 0:      # support: post-covariance shape parameters, to_table
             own = dict(data=c['data'], conv=c['conv'], err=c['err'], bkg=c['bkg'], mask=c['mask'])
             det = own if c['det'] is None else dict(c['det'], err=None, bkg=None)
@@ -1179,8 +1195,9 @@ def replay(obj):
         print(f'history: properties pre-evaluated = {pre}; take {kind}; edit it in place; read the catalog again')
         for what, name in problems:
             print(' ', what, name)
-        print('property holds on this input' if not problems else 'property FAILS on this input')
-        return 1 if problems else 0
+        print('aliasing observation only (a caller editing a returned object is outside property C07): '
+              + ('aliasing seen' if problems else 'no aliasing seen'))
+        return 0
     try:
         cat, sub, rows = run_impl(case)
     except ImplTimeout:
